@@ -77,6 +77,10 @@ def extended_defs(nb, staged=True, bunched=True, leadloop=None,
         out += [("FS", d) for d in fragment.staged_merge_family()]
         # branches that die inside a loop body
         out += [("FD", d) for d in fragment.kill_in_loop_family()]
+    if staged:
+        # two or three separate break XORs in one loop body (inside F, but
+        # >= 8 events)
+        out += [("FT", d) for d in fragment.sibling_breaks_family()]
     if stretched:
         # long sequences: the block structures of F_n with every event drawn
         # out to a chain, so that fork, merge and loop ends lie far apart
